@@ -40,6 +40,8 @@ struct Hg {
     max: usize,
     delay: Delay,
     max_ticks: usize,
+    /// clones of the inner service used for hedges are not ready until the explorer says so
+    held_readiness: bool,
 }
 
 struct X {
@@ -64,7 +66,7 @@ impl Scenario for Hg {
         "C12"
     }
     fn label(&self) -> String {
-        format!("hedge max_hedged_attempts={} delay={:?}", self.max, self.delay)
+        format!("hedge max_hedged_attempts={} delay={:?}{}", self.max, self.delay, if self.held_readiness { " hedge-clones-not-ready-until-released" } else { "" })
     }
     fn callers(&self) -> usize {
         1
@@ -80,6 +82,7 @@ impl Scenario for Hg {
             d => b.delay_fn(move |k| Duration::from_millis(d.of(k))),
         };
         let layer = b.build();
+        w.inner.lock().unwrap().hold_late_ready = self.held_readiness;
         let svc = layer.layer(GatedInner::new(w.inner.clone()));
         X { svc, first_success: None, completions: vec![], pre_first_success_pending: false }
     }
@@ -92,6 +95,12 @@ impl Scenario for Hg {
     }
     fn outs(&self) -> Vec<Out> {
         vec![Out::Ok, Out::Err(0)]
+    }
+    fn ctl_actions(&self, w: &World, _x: &X) -> Vec<u8> {
+        w.inner.lock().unwrap().held_unreleased().into_iter().map(|i| i as u8).collect()
+    }
+    fn apply_ctl(&self, w: &mut World, _x: &mut X, ctl: u8) {
+        w.release_ready(ctl as usize);
     }
     fn allow(&self, _w: &World, _x: &X, h: &[Action], a: &Action) -> bool {
         let c = Counts::of(h);
@@ -123,14 +132,16 @@ impl Scenario for Hg {
         if n > self.max {
             out.push(Viol::new("too_many_attempts", site, format!("{n} attempts started with max_hedged_attempts={}", self.max)));
         }
-        for k in 1..n {
+        // (with held readiness the instant of the inner call is not the instant the layer
+        // started the attempt, so spacing is judged in the other configurations only)
+        for k in 1..if self.held_readiness { 0 } else { n } {
             let gap = g.calls[k].start_ms - g.calls[k - 1].start_ms;
             let need = self.delay.of(k);
             if gap < need {
                 out.push(Viol::new("hedge_too_early", site, format!("attempt {k} started {gap}ms after attempt {} (configured delay {need}ms)", k - 1)));
             }
         }
-        if self.delay == Delay::Immediate && n > 0 && n < self.max && w.callers[0].polls > 0 {
+        if self.delay == Delay::Immediate && !self.held_readiness && n > 0 && n < self.max && w.callers[0].polls > 0 {
             out.push(Viol::new("parallel_not_all_at_once", site, format!("parallel mode started only {n} of {} attempts at the first poll", self.max)));
         }
         let statuses: Vec<CallStatus> = g.calls.iter().map(|k| k.status.clone()).collect();
@@ -209,6 +220,9 @@ impl Scenario for Hg {
         if matches!(&w.callers[0].phase, Phase::Done(Outcome::Layer(_))) {
             v.push("all_attempts_failed");
         }
+        if !g.held_unreleased().is_empty() && matches!(&w.callers[0].phase, Phase::Done(Outcome::Ok(_))) {
+            v.push("success_while_hedge_clone_not_ready");
+        }
         if matches!(&w.callers[0].phase, Phase::Done(Outcome::Ok(r)) if g.calls.iter().any(|k| k.k >= 1 && matches!(&k.status, CallStatus::Ok(r2) if r2 == r))) {
             v.push("hedge_won");
         }
@@ -220,9 +234,18 @@ impl Scenario for Hg {
         if w.callers[0].phase == Phase::NotArrived {
             return "-".into();
         }
+        // every held clone becomes ready now
+        let held = w.inner.lock().unwrap().held_unreleased();
+        for i in held {
+            w.release_ready(i);
+        }
         // failing drain: every attempt that can still be completed fails; the call must end
         // with all-attempts-failed after exactly max attempts
         for _ in 0..16 {
+            let held = w.inner.lock().unwrap().held_unreleased();
+            for i in held {
+                w.release_ready(i);
+            }
             let gateable = w.inner.lock().unwrap().gateable();
             for k in gateable {
                 self.before(w, x, &Action::Complete(k as u8, Out::Err(0)));
@@ -256,7 +279,12 @@ fn configs(tier: Tier) -> Vec<Hg> {
     let mut v = vec![];
     for max in [1usize, 2, 3] {
         for delay in [Delay::Fixed20, Delay::Immediate, Delay::Dyn20_10, Delay::Dyn20_0, Delay::Dyn0_20] {
-            v.push(Hg { max, delay, max_ticks: tier.pick(6, 8) });
+            v.push(Hg { max, delay, max_ticks: tier.pick(6, 8), held_readiness: false });
+        }
+        if max >= 2 {
+            for delay in [Delay::Fixed20, Delay::Immediate] {
+                v.push(Hg { max, delay, max_ticks: tier.pick(5, 7), held_readiness: true });
+            }
         }
     }
     v
@@ -280,7 +308,7 @@ fn main() {
     rep.assumptions = vec![
         "prompt executor; attempt tasks are run by tokio's FIFO queue whenever the explorer yields; their relative order is controlled through the gates".into(),
     ];
-    for w in ["hedge_started_after_delay", "attempts_started_at_one_instant", "hedge_failed_while_primary_running", "completion_at_hedge_start_instant", "all_attempts_failed", "hedge_won"] {
+    for w in ["success_while_hedge_clone_not_ready", "hedge_started_after_delay", "attempts_started_at_one_instant", "hedge_failed_while_primary_running", "completion_at_hedge_start_instant", "all_attempts_failed", "hedge_won"] {
         rep.require_witness(w);
     }
     let depth = tier.pick(12, 16);
